@@ -57,6 +57,7 @@ def make_logic(ctx, g, eq, kinds):
         if kd == 'l': desc.append(('label', next(fresh)))
         elif kd == 's': desc.append(('label', 'p'))
         elif kd == 'P': desc.append(('poly', pi)); pi += 1
+        elif kd == 'm': desc.append(('not', 'p'))          # NOT of the shared label p (contradiction / tautology with 's')
         elif kd == 'n': desc.append(('not', next(fresh)))
         elif kd == 'a': desc.append(('and', next(fresh), next(fresh)))
     labels = sorted({'p', 'q'} * (1 if npoly else 0) | {x for d in desc for x in d[1:] if isinstance(x, str)}) if False else None
@@ -89,7 +90,16 @@ def make_logic(ctx, g, eq, kinds):
                 S.add_constraint_eq_zero({(labels[0],): 1}, lam=lam)
                 S.add_constraint_NOT(labels[-1], lam=lam)
         valid2 = {tuple(a[l] for l in labels): bool(H.is_solution_valid(dict(a))) for a in O.assigns(labels)}
-        return H, ret is H, valid, unchanged, ops, valid2
+        # history: the very same constraint is added a second time (e.g. to strengthen it): its penalty must be added again
+        H1 = {k: v for k, v in H.items()}
+        with warnings.catch_warnings():
+            warnings.simplefilter('ignore')
+            getattr(H, 'add_constraint_' + ('eq_' if eq else '') + g)(*ops, lam=lam)
+        added2 = {}
+        for k in set(H) | set(H1):
+            d = H.get(k, 0) - H1.get(k, 0)
+            added2[k] = d
+        return H1, ret is H, valid, unchanged, ops, valid2, added2
 
     def opval(d, a):
         if d[0] == 'label': return a[d[1]]
@@ -98,12 +108,15 @@ def make_logic(ctx, g, eq, kinds):
         return None
 
     def check(res):
-        H, ret_self, valid, unchanged, ops, valid2 = res
+        H, ret_self, valid, unchanged, ops, valid2, added2 = res
+        same2 = [ctx.z(added2.get(k, 0)) == ctx.z(H.get(k, 0)) for k in set(added2) | set(H)]
         obs = [Ob('returns self', ret_self), Ob('operands unchanged', unchanged),
+               Ob('adding the same constraint a second time adds the same penalty again', z3.And(same2) if same2 else True, sig='second identical constraint'),
                Ob('is_solution_valid unaffected by constraints added to copies of the model', valid == valid2, sig='is_solution_valid after sibling edit')]
-        hv = {i for k in H for i in k} | set(H.variables)
+        hv = {i for k in H for i in k}
         obs.append(Ob('no ancilla / foreign variables', hv <= set(labels), info={'vars': sorted(map(repr, hv))}))
         zl = ctx.z(lam)
+        any_viol = False
         # operand polynomials are concrete on this path (realised); evaluate them as numbers
         for a in O.assigns(labels):
             vals = []
@@ -117,12 +130,14 @@ def make_logic(ctx, g, eq, kinds):
                 ok = bool(vals[0]) == truth(g, vals[1:])
             else:
                 ok = truth(g, vals)
+            any_viol = any_viol or not ok
             F = ctx.z(O.bool_poly(H, a))
             xs = tuple(a[l] for l in labels)
             obs.append(Ob('penalty is %s @%s' % ('0 where the relation holds' if ok else '>= lam where it fails', xs), (F == 0) if ok else (F >= zl),
                           sig='penalty value (%s)' % ('satisfied' if ok else 'violated')))
             obs.append(Ob('is_solution_valid @%s' % (xs,), valid[xs] == ok, info={'got': valid[xs], 'want': ok}, sig='is_solution_valid'))
-        obs.append(Ob('twin: some assignment is penalised', z3.Or([ctx.z(O.bool_poly(H, a)) > 0 for a in O.assigns(labels)]), expect_sat=True))
+        if any_viol:
+            obs.append(Ob('twin: some assignment is penalised', z3.Or([ctx.z(O.bool_poly(H, a)) > 0 for a in O.assigns(labels)]), expect_sat=True))
         return obs
     return run, check
 
@@ -154,6 +169,9 @@ def jobs(tier, seed):
                     if n >= 2:
                         add(g, eq, pre + 'l' * (n - 1) + 'P')
                         add(g, eq, pre + 'n' + 'a' + 'l' * (n - 2))
+            add(g, eq, pre + 'sml')
+            add(g, eq, pre + 'msl')
+            add(g, eq, pre + 'lsm')
             if eq:
                 add(g, eq, 'P' + 'l' * max(lo, 2))
                 add(g, eq, 'n' + 'l' * max(lo, 2))
